@@ -36,6 +36,11 @@ func checkC13(r *Run) {
 			b.SameName = true
 			b.Tags = append(b.Tags, "same-package-name")
 			label += "/same-name"
+		case !override && len(pairs)%4 == 3:
+			// the override is keyed by a full import path (default_package_name itself)
+			b.FullPathOverride = true
+			b.Tags = append(b.Tags, "override-keyed-by-full-path")
+			label += "/full-path-override"
 		case override && len(pairs)%4 == 0:
 			// go_package points elsewhere: only import_path_overrides knows where the structs are
 			b.ForeignGoPackage = true
